@@ -177,6 +177,85 @@ func TestC01Generators(t *testing.T) {
 	})
 }
 
+// the widest subnets (/0../7): a pass cannot be walked to its end, but its beginning can be - it must exist, stay inside the
+// subnet and not repeat itself
+type c01HugeCase struct {
+	CIDR   string `json:"cidr"`
+	Ports  bool   `json:"with_one_port"`
+	Seed   int64  `json:"rand_seed"`
+	Prefix int    `json:"requests_examined"`
+}
+
+func TestC01HugePrefix(t *testing.T) {
+	kit.Run(t, kit.Spec[c01HugeCase]{
+		Prop: "C01",
+		Rule: "subnets /0../7 with any base address through the real IP (x one port) request generators: the first 20000..60000 requests of a pass must arrive without an error, lie inside the subnet and be pairwise distinct (the pass is then cancelled). non-trivial: always; distinct by case",
+		Gen: func(t *rapid.T) c01HugeCase {
+			bits := rapid.SampledFrom([]int{0, 0, 1, 1, 2, 3, 5, 7}).Draw(t, "bits")
+			a := uint32(kit.UniformInt64(t, "base", 0, 1<<32-1))
+			return c01HugeCase{CIDR: fmt.Sprintf("%s/%d", gram.U32String(a), bits), Ports: rapid.Bool().Draw(t, "ports"), Seed: rapid.Int64().Draw(t, "seed"),
+				Prefix: rapid.SampledFrom([]int{20000, 60000}).Draw(t, "prefix")}
+		},
+		Check: func(c c01HugeCase) *kit.Verdict {
+			v := &kit.Verdict{Units: c.Prefix, NonTrivial: true}
+			p, ok := gram.RefIPv4Target(c.CIDR)
+			if !ok {
+				return v.Failf("harness: bad cidr %q", c.CIDR)
+			}
+			v.Label("prefix=/%d", p.Bits)
+			_, ipnet, err := net.ParseCIDR(c.CIDR)
+			if err != nil {
+				return v.Failf("harness: %v", err)
+			}
+			rand.Seed(c.Seed)
+			ctx, cancel := context.WithCancel(context.Background())
+			defer cancel()
+			r := &scan.Range{DstSubnet: ipnet, SrcIP: net.IP{10, 0, 0, 1}}
+			var reqs <-chan *scan.Request
+			if c.Ports {
+				r.Ports = []*scan.PortRange{{StartPort: 443, EndPort: 443}}
+				reqs, err = scan.NewIPPortGenerator(scan.NewIPGenerator(), scan.NewPortGenerator()).GenerateRequests(ctx, r)
+			} else {
+				reqs, err = scan.NewIPRequestGenerator(scan.NewIPGenerator()).GenerateRequests(ctx, r)
+			}
+			if err != nil {
+				return v.Failf("generator refused %s: %v", c.CIDR, err)
+			}
+			seen := make(map[uint32]bool, c.Prefix)
+			timeout := time.After(60 * time.Second)
+			for len(seen) < c.Prefix {
+				select {
+				case req, ok := <-reqs:
+					if !ok {
+						return v.Failf("%s: the pass ended after %d requests (the subnet has %d addresses)", c.CIDR, len(seen), p.Size())
+					}
+					if req.Err != nil {
+						return v.Failf("%s: request %d carries an error: %v", c.CIDR, len(seen), req.Err)
+					}
+					ip4 := req.DstIP.To4()
+					if ip4 == nil {
+						return v.Failf("%s: request with address %v", c.CIDR, req.DstIP)
+					}
+					a := gram.BytesU32(ip4)
+					if !p.Contains(a) {
+						return v.Failf("%s: request for %s outside the subnet", c.CIDR, gram.U32String(a))
+					}
+					if seen[a] {
+						return v.Failf("%s: %s requested twice within the first %d requests", c.CIDR, gram.U32String(a), len(seen))
+					}
+					if c.Ports && req.DstPort != 443 {
+						return v.Failf("%s: request for port %d, the specification has 443 only", c.CIDR, req.DstPort)
+					}
+					seen[a] = true
+				case <-timeout:
+					return v.Failf("%s: only %d requests within 60 s", c.CIDR, len(seen))
+				}
+			}
+			return v
+		},
+	})
+}
+
 // one large subnet per invocation (thorough tier)
 func TestC01BigSubnet(t *testing.T) {
 	bits := kit.EnvInt("C01_BIG_BITS", 0)
